@@ -11,7 +11,7 @@ CFGS_ALL = ['default', 'defaultnull', 'custom', 'arena', 'onlymalloc', 'onlyfree
 
 def plan(prop, tier):
     q = tier == 'quick'
-    flavours = ['asan', 'plain']
+    flavours = ['asan', 'plain', 'efence']
     n = 16 if q else 64
     per = {'C06': 260, 'C07': 260, 'C11': 220, 'C14': 120, 'C19': 500}[prop] if q else {'C06': 6000, 'C07': 6000, 'C11': 5000, 'C14': 2500, 'C19': 12000}[prop]
     shards = [('prog', SEED * 1000 + i, per) for i in range(n)]
